@@ -323,6 +323,7 @@ package system
 //@   assigns nothing
 //
 //@ func IsPrimitive(input) (res)
+//@   requires input == nil || validItem(input)
 //@   defines res == isPrimS(input)
 //@   ensures implements(input, Any) ==> res
 //@   ensures input == nil ==> !res
